@@ -63,6 +63,15 @@ type Schedule struct {
 	G   string `json:"g"`
 	Pre []Op   `json:"pre"`
 	Par []Op   `json:"par"`
+	// Hold says how the environment resolves the overlap: "" / "free" = the calls run as they come; otherwise ONE
+	// call is held at an interface (by gates in the group's fakes) while the others run (see Concurrency!Holds).
+	Hold string `json:"hold"`
+}
+
+// Beginner is implemented by groups that need to know the schedule of the history that is about to run (which
+// call is held where): Begin is called after Reset, before the first call of the history.
+type Beginner interface {
+	Begin(sc Schedule, rep int)
 }
 
 // Group is the binding of one group of operations to a real service.
@@ -175,6 +184,9 @@ func Run(t *testing.T, groups map[string]func(ctx context.Context) Group) {
 		for rep := 0; rep < nreps; rep++ {
 			hist++
 			grp.Reset(ctx)
+			if b, ok := grp.(Beginner); ok {
+				b.Begin(sc, rep)
+			}
 			tr.Emit(map[string]interface{}{"sc": sc.Sc, "h": hist, "ev": "Reset", "g": group})
 			id := 0
 			for _, op := range sc.Pre {
